@@ -293,15 +293,53 @@ def check_xmap(prog, rep):
             rep.unrec("R3-xmap", f.qualname, "not in the modelled form")
 
 
+def check_ctor_forwarding(prog, rep):
+    """R4-ctor: a selection protocol's constructor hands each of its parameters to the parent constructor under its own name: super().__init__(k = v)
+    with v another parameter while k itself is a parameter is a crossed hand-over (the declared preference weights / transformations are the ones used)"""
+    R = "R4-ctor"
+    for m in prog.modules.values():
+        if not m.name.startswith(SEL) or m.name.startswith(SEL + "prob") or m.name.startswith(SEL + "cfg"):
+            continue
+        for K in m.classes.values():
+            f = K.methods.get("__init__")
+            if f is None:
+                continue
+            params = [p for p in f.params() if p != "self"]
+            sup = [c for c in walk_no_nested(f.node) if isinstance(c, ast.Call) and isinstance(c.func, ast.Attribute) and c.func.attr == "__init__"
+                   and ((isinstance(c.func.value, ast.Call) and dump(c.func.value.func) == "super") or isinstance(c.func.value, ast.Name))]
+            # the same for direct stores: self.k = v with k and v both parameters
+            for st in walk_no_nested(f.node):
+                if isinstance(st, ast.Assign) and len(st.targets) == 1 and isinstance(st.value, ast.Name) and st.value.id in params:
+                    k = field_of(st.targets[0])
+                    if k in params and k != st.value.id:
+                        rep.saw(f)
+                        rep.violate(R, f.qualname, "self.%s is set from the parameter %s although the constructor has its own parameter %s" % (k, st.value.id, k), where(f, st),
+                                    "self.%s = %s" % (k, k), dump(st))
+            if not sup:
+                continue
+            rep.saw(f)
+            for c in sup:
+                kws, stars = kwargs_of(c)
+                good = True
+                for k, v in kws.items():
+                    if isinstance(v, ast.Name) and v.id in params and k in params and v.id != k:
+                        rep.violate(R, f.qualname, "the parent constructor receives %s = %s although the constructor has its own parameter %s: the caller's %s is dropped and "
+                                    "%s takes its place" % (k, v.id, k, k, v.id), where(f, c), "%s = %s" % (k, k), "%s = %s" % (k, v.id))
+                        good = False
+                if good:
+                    rep.ok(R, f.qualname, "%d keywords handed to the parent constructor under their own names" % len(kws))
+
+
 def run(prog, rep, tier):
     rep.explanation = ("Wiring rules: the decision that reaches the cross configuration is the solver's own (argmax of the declared weighted preference transformation for "
                        "fronts), all design parameters and the population are forwarded by name, the sampling pipeline of the eight configuration classes is the required "
                        "sequence with self.rng at every step, and the cross-map index generators start each level correctly. The exchange search is checked by C17-R1.")
     rep.not_decided = ["that an exact optimiser picks the best candidates; permutation equivariance; balance within one share (runtime / C17's undecided clauses)"]
-    rep.only_rules = {"R1-select", "R2-pipeline", "R3-xmap", "R1-outcross"}
-    for r, n in (("R1-select", 20), ("R2-pipeline", 8), ("R3-xmap", 3), ("R1-outcross", 2)):
+    rep.only_rules = {"R1-select", "R2-pipeline", "R3-xmap", "R1-outcross", "R4-ctor"}
+    for r, n in (("R1-select", 20), ("R2-pipeline", 8), ("R3-xmap", 3), ("R1-outcross", 2), ("R4-ctor", 50)):
         rep.floor(r, n)
     check_select(prog, rep)
     check_pipeline(prog, rep)
     check_xmap(prog, rep)
+    check_ctor_forwarding(prog, rep)
     c17.check_outcross(prog, rep)
